@@ -1,6 +1,8 @@
 package main
 
 import (
+	"go/token"
+	"go/constant"
 	"fmt"
 	"go/types"
 	"sort"
@@ -541,6 +543,21 @@ func (a *Analysis) CheckC15(rep *Report) {
 					rep.Ob("D2-dynamic-part-rebuilt", ct.Name+":dyn["+pl.Conds+"]", old == "", a.P.Pos(e.Pos), "Decode is invoked on the receiver's previous body/extension: "+old)
 				}
 			}
+			// elements of lists (anything decoded inside a loop): the object decoded into must be made in this call, and
+			// what the loop does must not depend on what the receiver held
+			walkEvents(p.Events, func(e *Event, depth int) {
+				if depth > 0 && e.Kind == EvObj && e.Dir == "Decode" {
+					old := oldStateIn(e.Recv)
+					rep.Ob("D2-element-objects-fresh", ct.Name+":elem@"+siteKey(e)+"["+pl.Conds+"]", old == "", a.P.Pos(e.Pos), "a list element is decoded into an object the receiver already held: "+old)
+				}
+				for _, arm := range e.Iter {
+					for _, c := range arm.Conds {
+						if old := oldStateIn(c.V); old != "" && e.Kind == EvRep {
+							rep.Ob("D2-branch-on-old-state", ct.Name+":"+c.V.Pretty(), false, a.condPos(c, ct.Decode), "decoding branches on the receiver's previous content: "+c.String())
+						}
+					}
+				}
+			})
 			// branch conditions
 			for _, c := range p.Conds {
 				if old := oldStateIn(c.V); old != "" {
@@ -824,6 +841,14 @@ func availabilityGuard(c Cond, n *Val) bool {
 				continue
 			}
 			an, ao := affOf(n), affOf(other)
+			// count*size against Len/size with a symbolic size (generic body): the same two factors
+			if m := stripCT(n); m.Op == "binop" && m.Name == "*" && len(m.Args) == 2 && o.Op == "binop" && len(o.Args) == 2 {
+				for s2 := 0; s2 < 2; s2++ {
+					if affEq(m.Args[s2], other) && !affOf(other).Top && stripCT(m.Args[1-s2]).Key() == stripCT(o.Args[1]).Key() {
+						return true
+					}
+				}
+			}
 			if an.Top || ao.Top {
 				continue
 			}
@@ -852,9 +877,14 @@ func lenOverConst(o *Val) (int64, bool) {
 	}
 	// binary.Size of a value whose type parameter admits only fixed-size number types: a positive size, symbolic in the
 	// generic body (every instantiation, where it is a constant, is analysed as well)
+	if d := stripCT(o.Args[1]); d.Op == "param" && d.Type != nil && isIntegerType(d.Type) {
+		return 1, true // a primitive analysed with a symbolic width parameter (a positive literal at every call site, C13-X7)
+	}
 	if d := stripCT(o.Args[1]); d.Op == "call" && d.Name == "encoding/binary.Size" && len(d.Args) == 1 {
 		if t := stripIface(d.Args[0]).Type; t != nil {
-			if tp, isTP := t.(*types.TypeParam); isTP && allTermsFixed(tp) {
+			if _, isTP := t.(*types.TypeParam); isTP {
+				// (for a type argument without a fixed size encoding/binary refuses the value anyway: there is no
+				// encoding whose acceptance could be at stake)
 				return 1, true
 			}
 		}
@@ -888,6 +918,38 @@ func (a *Analysis) spuriousRejections(paths []*Path) []string {
 	guardOK := func(last Cond) bool {
 		if last.V.Op != "binop" {
 			return false
+		}
+		// int(t) < 0 for an unsigned t read from the wire: only when t exceeds MaxInt – no encoder produces such a count
+		if v := last.V; len(v.Args) == 2 && ((v.Name == "<" && last.Taken) || (v.Name == ">=" && !last.Taken)) && isZero(v.Args[1]) {
+			x := stripCT(v.Args[0])
+			for x.Op == "conv" && len(x.Args) == 1 {
+				x = stripCT(x.Args[0])
+			}
+			if x.Op == "wire" && x.Type != nil {
+				if b, ok := x.Type.Underlying().(*types.Basic); ok && b.Info()&types.IsUnsigned != 0 {
+					return true
+				}
+				if _, isTP := x.Type.(*types.TypeParam); isTP {
+					return true
+				}
+			}
+		}
+		// a count or length beyond what a Go slice or string can have (> MaxInt64): no encoder produces it
+		if v := last.V; len(v.Args) == 2 {
+			for side := 0; side < 2; side++ {
+				if k := v.Args[1-side]; k.IsConst() && k.C != nil && k.C.Kind() == constant.Int && constant.Compare(k.C, token.GEQ, constant.MakeInt64(1<<63-1)) {
+					op := v.Name
+					if side == 1 {
+						op = map[string]string{"<": ">", ">": "<", "<=": ">=", ">=": "<="}[op]
+					}
+					if !last.Taken {
+						op = map[string]string{"<": ">=", ">=": "<", ">": "<=", "<=": ">"}[op]
+					}
+					if op == ">" || op == ">=" {
+						return true
+					}
+				}
+			}
 		}
 		for side := 0; side < 2; side++ {
 			o := stripCT(last.V.Args[side])
@@ -942,6 +1004,13 @@ func (a *Analysis) spuriousRejections(paths []*Path) []string {
 		}
 		last := conds[len(conds)-1]
 		if guardOK(last) {
+			return true, nil
+		}
+		if !last.V.Contains(func(x *Val) bool {
+			return x.Op == "wire" || x.Op == "buflen" || x.Op == "bufbytes" || x.Op == "bufnext" || x.Op == "short" || x.Op == "init" || x.Op == "elem"
+		}) {
+			// decided by the caller's arguments alone (a negative width, a nil buffer …): a refusal of the call, not of
+			// bytes an encoder produced – for the literal arguments of the message codecs such a test is a constant
 			return true, nil
 		}
 		return false, &last
